@@ -9,6 +9,20 @@ from velacheck.patchtest import run_patch
 man = json.load(open("/verif/MANIFEST.json"))
 props = [c["property_id"] for c in man["checks"]]
 seeds = sorted(d for d in glob.glob("/verif/seeded/C*-*") if os.path.isdir(d))
+# MATRIX_ONLY=stale re-runs only the seeds whose recorded row is missing, has an analysis error or does not list the own property
+old_rows = {}
+if os.path.exists("/verif/seeded/MATRIX.md"):
+    for ln in open("/verif/seeded/MATRIX.md"):
+        c = [x.strip() for x in ln.strip().strip("|").split("|")]
+        if len(c) == 4 and c[0].startswith("C") and "-" in c[0]:
+            old_rows[c[0]] = (c[0], c[2], c[3])
+if os.environ.get("MATRIX_ONLY") == "stale":
+    def stale(d):
+        sid = os.path.basename(d)
+        r = old_rows.get(sid)
+        return r is None or r[2] or sid.split("-")[0] not in r[1]
+    seeds = [d for d in seeds if stale(d)]
+    print("re-running", len(seeds), "rows")
 
 def one(d):
     own = os.path.basename(d).split("-")[0]
@@ -36,8 +50,13 @@ with ThreadPoolExecutor(max_workers=int(os.environ.get("MATRIX_WORKERS", "14")))
             meta["first_report"] = {p: (v[0][:300] if v else "") for p, v in detail.items()}
             rows.append((sid, ", ".join(fired) if fired else "MISSED", ", ".join(errs)))
         json.dump(meta, open(os.path.join(d, "meta.json"), "w"), indent=1)
+merged = dict(old_rows) if os.environ.get("MATRIX_ONLY") == "stale" else {}
+for r_ in rows:
+    merged[r_[0]] = r_
+live = {os.path.basename(d) for d in glob.glob("/verif/seeded/C*-*") if os.path.isdir(d)}
+rows = [merged[k] for k in sorted(merged) if k in live]
 with open("/verif/seeded/MATRIX.md", "w") as f:
     f.write("| seeded change | property it breaks | caught by (exit 1) | exit 2 in |\n|---|---|---|---|\n")
     for sid, fired, errs in rows:
         f.write(f"| {sid} | {sid.split('-')[0]} | {fired} | {errs} |\n")
-print(open("/verif/seeded/MATRIX.md").read())
+print(len(rows), "rows written")
